@@ -63,7 +63,9 @@ theorem C09_inv_step (s : CState) (i : Nat) (h : Inv s) : Inv (cstep s i) := by
     | atLookup =>
       simp only
       split
-      · exact inv_setProc _ _ _ h (by simp [ProcOk, hpc] at hp; simp [ProcOk, hp])
+      · split
+        · exact inv_setProc _ _ _ h (by simp [ProcOk, hpc] at hp; simp [ProcOk, hp])
+        · exact inv_setProc _ _ _ h (by simp [ProcOk, hpc] at hp; simp [ProcOk, hp])
       · split
         · exact inv_setProc _ _ _ h (by simp [ProcOk, hpc] at hp; simp [ProcOk, hp])
         · exact inv_setProc _ _ _ h (by simp [ProcOk, hpc] at hp; simp [ProcOk, hp])
